@@ -63,8 +63,6 @@ Definition parse_lim1 (s : list N) : N := match s with [] => ssize_limit | _ :: 
 Definition mk_lim (a b : list N) : file_limits := {| seek_max := parse_lim1 a; read_max := parse_lim1 b |}.
 Definition mk_le (loaders stderr : list N) : loader_env :=
   {| le_all := match loaders with [] => true | c :: _ => c =? 42 end; le_existing := parse_list loaders; le_stderr := stderr |}.
-Definition show_exn (x : exn) : list N := match x with ExValueError => asc "!EXC:ValueError" | ExFileNotFound => asc "!EXC:FileNotFoundError" end.
-Definition show_outcome (o : outcome (list (list N))) : list N := match o with Done l => commas l | Raised x => show_exn x end.
 (* ELFFile(open(path, "rb")) *)
 Definition obs_elf_disk (f seekmax readmax : list N) : list N :=
   match parse_header f with
@@ -74,10 +72,8 @@ Definition obs_elf_disk (f seekmax readmax : list N) : list N :=
   end.
 Definition obs_musl_x (archs exe stderr loaders seekmax readmax : list N) : list N :=
   let lim := mk_lim seekmax readmax in
-  match musllinux_tags_x lim (parse_exe_arg exe) (mk_le loaders stderr) (parse_list archs) with
-  | Done l => fields [commas l; match musl_loader_disk lim (parse_exe_arg exe) with Some ld => 83 :: ld | None => [45] end]
-  | Raised x => show_exn x
-  end.
+  fields [commas (musllinux_tags_x lim (parse_exe_arg exe) (mk_le loaders stderr) (parse_list archs));
+          match musl_loader_disk lim (parse_exe_arg exe) with Some ld => 83 :: ld | None => [45] end].
 (* a battery of probe steps without cache_clear(): args = archs, then 6 per step: key confstr ctypes exe policy stderr *)
 Fixpoint parse_steps (fuel : nat) (args : list (list N)) : list pstep :=
   match fuel, args with
@@ -85,7 +81,7 @@ Fixpoint parse_steps (fuel : nat) (args : list (list N)) : list pstep :=
       {| st_key := key; st_menv := mk_menv confstr ctypes exe policy; st_lim := mem_limits; st_le := mk_le [] stderr |} :: parse_steps fuel' more
   | _, _ => []
   end.
-Definition show_step (o : list (list N) * outcome (list (list N))) : list N := fields [commas (fst o); show_outcome (snd o)].
+Definition show_step (o : list (list N) * list (list N)) : list N := fields [commas (fst o); commas (snd o)].
 Definition obs_probes (args : list (list N)) : list N :=
   match args with
   | archs :: rest => join [59] (map show_step (run_steps (parse_list archs) pstate0 (parse_steps (List.length rest) rest)))
@@ -106,15 +102,12 @@ Definition run_plat (cmd : list N) (args : list (list N)) : option (list N) :=
   else if seqb cmd (asc "p.macdef") then Some (show_olist (mac_default (a 0%nat) (a 1%nat) (a 2%nat)))
   else if seqb cmd (asc "p.ios") then Some (commas (ios_platforms (pair_nat (a 0%nat) (a 1%nat)) (a 2%nat)))
   else if seqb cmd (asc "p.linux") then
-    Some (show_outcome (linux_platforms_x (parse_bool (a 0%nat)) (a 1%nat) (mk_menv (a 2%nat) (a 3%nat) (a 4%nat) (a 5%nat))
+    Some (commas (linux_platforms_x (parse_bool (a 0%nat)) (a 1%nat) (mk_menv (a 2%nat) (a 3%nat) (a 4%nat) (a 5%nat))
                                           (mk_lim (a 8%nat) (a 9%nat)) (mk_le (a 7%nat) (a 6%nat))))
   else if seqb cmd (asc "p.plat") then
-    Some (match platform_tags_x {| pe_system := a 0%nat; pe_get_platform := a 1%nat;
-                                   pe_menv := mk_menv (a 2%nat) (a 3%nat) (a 4%nat) (a 5%nat); pe_musl_stderr := a 6%nat;
-                                   pe_mac_ver := a 7%nat; pe_mac_cpu := a 8%nat; pe_mac_sub := a 9%nat;
-                                   pe_ios_release := a 10%nat; pe_multiarch := a 11%nat |}
-                                (mk_lim (a 13%nat) (a 14%nat)) (mk_le (a 12%nat) (a 6%nat)) with
-          | Some o => show_outcome o
-          | None => asc "!EXC:ValueError"
-          end)
+    Some (show_olist (platform_tags_x {| pe_system := a 0%nat; pe_get_platform := a 1%nat;
+                                         pe_menv := mk_menv (a 2%nat) (a 3%nat) (a 4%nat) (a 5%nat); pe_musl_stderr := a 6%nat;
+                                         pe_mac_ver := a 7%nat; pe_mac_cpu := a 8%nat; pe_mac_sub := a 9%nat;
+                                         pe_ios_release := a 10%nat; pe_multiarch := a 11%nat |}
+                                      (mk_lim (a 13%nat) (a 14%nat)) (mk_le (a 12%nat) (a 6%nat))))
   else None.
